@@ -33,12 +33,12 @@ class RecSM:
 
 
 class Cluster:
-    def __init__(self):
+    def __init__(self, names=("A", "B", "C")):
         self.clock = Clock(Instant(0))
         self.net = Network(name="net")
         self.net.set_clock(self.clock)
-        self.sm = {n: RecSM() for n in ("A", "B", "C")}
-        self.node = {n: RaftNode(name=n, network=self.net, state_machine=self.sm[n]) for n in ("A", "B", "C")}
+        self.sm = {n: RecSM() for n in names}
+        self.node = {n: RaftNode(name=n, network=self.net, state_machine=self.sm[n]) for n in names}
         for nd in self.node.values():
             nd.set_peers(list(self.node.values()))
             nd.set_clock(self.clock)
@@ -66,6 +66,11 @@ class Cluster:
         self.absorb(fwd.invoke())
         md = {k: v for k, v in ev.context["metadata"].items() if k not in ("source", "destination")}
         self.show(f"{etype} {src}->{dst} {md}")
+
+    def lose(self, keep=()):
+        """Lose every in-flight message except those whose (type, src, dst) is listed."""
+        self.flight = [m for m in self.flight if (m.event_type[4:], m.context["metadata"]["source"],
+                                                  m.context["metadata"]["destination"]) in keep]
 
     def show(self, what):
         print(f"{what}")
